@@ -15,7 +15,8 @@ Definition check (x : c1case * c1out) : Z :=
   | (C1L2 pc, C1O2 p) =>
       match model_of_id (pc_model pc) with
       | Some m => code (match run_pcase2 pc with Some mo => pout2_eqb mo p | None => false end)
-                       (good_l2 (judge pc (decode_pout2 pc m p)))
+                       (good_l2 (judge pc (decode_pout2 pc m p)) &&
+                        good_l2 (judge pc (decode_pout2_from (lines_high (bus_width pc)) pc m p)))
       | None => 3
       end
   | _ => 3
